@@ -1,97 +1,15 @@
 (** C16 — statements not (yet) proved.  Only [Definition ..._statement : Prop]; nothing here is
-    used by Properties.v.  Each is exercised by the correspondence run (harness + driver). *)
+    used by Properties.v.  Each is exercised by the correspondence run (harness + driver).
+    (Proved since round 1 and moved to Properties.v: full typed canonicity for optional-free
+    types, the typed round trip for normal-form values, Split/CountValues against the encoder, the typed allocation bound.) *)
 From Coq Require Import List NArith Bool.
 From Coq Require Import Init.Byte.
 From Kardia Require Import C16.Model.
 Import ListNotations.
 Local Open Scope N_scope.
 
-(** types without rlp:"optional" anywhere *)
-Fixpoint optional_free (t : ty) : Prop :=
-  match t with
-  | TList e | TPtr e => optional_free e
-  | TStruct fs => optional_free_fields fs
-  | _ => True
-  end
-with optional_free_fields (fs : fields) : Prop :=
-  match fs with
-  | FNil => True
-  | FCons t tg r => t_optional tg = false /\ optional_free t /\ optional_free_fields r
-  end.
-
-(** full typed canonicity: every optional-free type, every tag (nil/nilString/nilList, tail,
-    "-"), big ints, bools, byte arrays, raw values, pointers.  Proved in ProofsTyped.v for
-    the core universe only (C16_typed_canonical_partial). *)
-Definition typed_canonical_statement : Prop :=
-  forall t tg il bs v rest a, optional_free t -> t_optional tg = false ->
-    dec_val t tg il bs = Ok v rest a -> bs = enc_val t tg v ++ rest.
-
-(** values in normal form: the ones the decoder can return *)
-Fixpoint wf_val (t : ty) (tg : tag) (v : val) {struct t} : Prop :=
-  match t, v with
-  | TUint bits, VUint n => n < 2 ^ bits
-  | TBig, VUint _ => True
-  | TBool, VBool _ => True
-  | TBytes, VBytes _ | TString, VBytes _ | TRaw, VBytes _ => True
-  | TArray n, VBytes b => len b = n
-  | TIface, VItem _ => True
-  | TList e, VList l => (fix all (l : list val) : Prop :=
-                           match l with [] => True | x :: r => wf_val e no_tag x /\ all r end) l
-  | TPtr e, VPtr w => wf_val e no_tag w /\
-                      (t_nil tg <> NoNil ->
-                       enc_val e no_tag w <> [Nb 128] /\ enc_val e no_tag w <> [Nb 192])
-  | TPtr _, VNil => t_nil tg <> NoNil
-  | TStruct fs, VStruct vs => wf_fields fs vs
-  | _, _ => False
-  end
-with wf_fields (fs : fields) (vs : list val) {struct fs} : Prop :=
-  match fs, vs with
-  | FNil, [] => True
-  | FCons t tg r, v :: vs' =>
-    (if t_ignored tg then v = zero_val t else wf_val t tg v) /\ wf_fields r vs'
-  | _, _ => False
-  end.
-
-(** typed round trip (RawValue fields must hold one well-formed item for this to be true;
-    the statement therefore excludes TRaw via [raw_free]) *)
-Fixpoint raw_free (t : ty) : Prop :=
-  match t with
-  | TRaw => False
-  | TList e | TPtr e => raw_free e
-  | TStruct fs => raw_free_fields fs
-  | _ => True
-  end
-with raw_free_fields (fs : fields) : Prop :=
-  match fs with FNil => True | FCons t _ r => raw_free t /\ raw_free_fields r end.
-
-Definition typed_roundtrip_statement : Prop :=
-  forall t v il rest, raw_free t -> wf_val t no_tag v ->
-    len (enc_val t no_tag v) < two64 ->
-    exists a, dec_val t no_tag il (enc_val t no_tag v ++ rest) = Ok v rest a.
-
 (** the literal Stream machine and the window decoder accept the same inputs with the same
     value (the driver checks this on every generated input) *)
 Definition stream_refines_window_statement : Prop :=
   forall t bs v,
     (exists s, stream_decode_bytes t bs = SOk v s) <-> (exists a, decode_bytes t bs = Ok v [] a).
-
-(** raw.go agrees with the decoder on the first value *)
-Definition split_encode_statement : Prop :=
-  forall x rest, len (encode x) < two64 ->
-    exists k c, split (encode x ++ rest) = ROk (k, c, rest) /\
-      match x with
-      | Str b => k <> KList /\ c = b
-      | List l => k = KList /\ c = flat_map encode l
-      end.
-
-Definition count_values_statement : Prop :=
-  forall l, len (flat_map encode l) < two64 ->
-    count_values (flat_map encode l) = ROk (len l).
-
-(** allocation bound for the typed decoder (proved for the item decoder: C16_size_bound) *)
-Definition typed_size_bound_statement : Prop :=
-  forall t tg il bs,
-    match dec_val t tg il bs with
-    | Ok _ rest alloc => alloc + len rest <= len bs
-    | Err _ alloc => alloc <= len bs
-    end.
